@@ -77,12 +77,8 @@ TRANSPORT = [
 ]
 
 PACKET = [
-    H("c01_pk_sliced_ethernet", "c01::packet", tier="thorough", unwind=5, timeout=7200, bounds="every byte string of length 0..=48, exact-size object", encodes=["SlicedPacket::from_ethernet (slices cut by the cursor; accessors are decided per layer)"]),
-    H("c01_pk_sliced_sll", "c01::packet", tier="thorough", unwind=5, timeout=7200, bounds="every byte string of length 0..=48, exact-size object", encodes=["SlicedPacket::from_linux_sll"]),
-    H("c01_pk_sliced_ether_type", "c01::packet", tier="thorough", unwind=5, timeout=7200, bounds="every ether type x every byte string of length 0..=44, exact-size object", encodes=["SlicedPacket::from_ether_type"]),
+    H("c01_pk_sliced_ip_44", "c01::packet", unwind=5, timeout=1500, bounds="every byte string of length 0..=44, exact-size object", encodes=["SlicedPacket::from_ip (slices cut by the cursor)"]),
     H("c01_pk_sliced_ip", "c01::packet", tier="thorough", unwind=5, timeout=7200, bounds="every byte string of length 0..=56, exact-size object", encodes=["SlicedPacket::from_ip"]),
-    H("c01_pk_lax_sliced_ethernet", "c01::packet", tier="thorough", unwind=5, timeout=7200, bounds="every byte string of length 0..=48, exact-size object", encodes=["LaxSlicedPacket::from_ethernet"]),
-    H("c01_pk_lax_sliced_ether_type", "c01::packet", tier="thorough", unwind=5, timeout=7200, bounds="every ether type x every byte string of length 0..=44, exact-size object", encodes=["LaxSlicedPacket::from_ether_type"]),
     H("c01_pk_lax_sliced_ip", "c01::packet", tier="thorough", unwind=5, timeout=7200, bounds="every byte string of length 0..=48, exact-size object", encodes=["LaxSlicedPacket::from_ip"]),
 ]
 
@@ -112,7 +108,10 @@ PROP = {
              "decoder, all accessors, conversions and iterators perform no access outside the object (CBMC pointer "
              "checks), violate no unsafe precondition (get_unchecked, from_raw_parts, unwrap_unchecked, "
              "unreachable_unchecked, debug_assert in *_unchecked) and every returned sub-slice lies inside the input",
-    "outside": "inputs longer than N; reads of uninitialised memory; aliasing-model UB",
+    "outside": "inputs longer than N; reads of uninitialised memory; aliasing-model UB; whole-packet entry points other than "
+               "from_ip over an exact-size buffer (SlicedPacket / LaxSlicedPacket from_ethernet, from_linux_sll, from_ether_type and all "
+               "PacketHeaders / LaxPacketHeaders entry points exceed the 20 GB cap; their cursor code runs on plain arrays in the C03 / C05 "
+               "glue harnesses, where CBMC still checks every unsafe precondition but not tightness)",
     "assumptions": [],
     "harnesses": LINK + NET + TRANSPORT + SHARED + PACKET,
 }
